@@ -618,6 +618,9 @@ func checkC14(c *Ctx) (string, []string) {
 		allInstrs(f, func(in ssa.Instruction) {
 			switch x := in.(type) {
 			case *ssa.Panic:
+				if isRangeFuncGuard(x) {
+					return // compiler-inserted protocol check of a range-over-func loop, not a panic of the code
+				}
 				bad, pos = "explicit panic", x.Pos()
 			case *ssa.TypeAssert:
 				if !x.CommaOk {
